@@ -10,7 +10,7 @@ BUNDLED = ["8.0.0", "8.1.0", "8.2.0", "8.3.0", "score_1.0.0", "score_1.1.0", "sc
            "testlib_1.0.2", "testlib_2.0.0", "testlib_2.1.0", "testlib_3.0.0"]
 STANDARD = ["8.0.0", "8.1.0", "8.2.0", "8.3.0"]
 PARTNERED = {"score_1.1.0": "8.2.0", "score_2.0.0": "8.3.0", "testlib_2.0.0": "8.2.0", "testlib_2.1.0": "8.2.0",
-             "testlib_3.0.0": "8.3.0"}
+             "testlib_3.0.0": "8.2.0"}
 LEGACY_LIBS = ["score_1.0.0", "testlib_1.0.2"]
 
 
